@@ -68,15 +68,49 @@ pub fn build_store(knobs: &Knobs, timer: Arc<dyn Timer + Send + Sync>) -> StoreS
     }
 }
 
+/// The harness's own calls into the store (probes, the sequential phases of ring T)
+/// execute code under test: a panic in there belongs to that code, not to the harness.
+/// It is recorded like any other (PROBE_PANICS), never reported as a harness error.
+pub fn guarded<R>(f: impl FnOnce() -> R) -> Option<R> {
+    let was = QUIET.with(|q| *q.borrow());
+    capture_panics(true);
+    let r = std::panic::catch_unwind(std::panic::AssertUnwindSafe(f));
+    capture_panics(was);
+    match r {
+        Ok(v) => Some(v),
+        Err(e) => {
+            if e.downcast_ref::<simseam::sched::SchedAbort>().is_some() {
+                std::panic::resume_unwind(e);
+            }
+            let msgs = take_panics();
+            PROBE_PANICS.with(|p| p.borrow_mut().extend(msgs));
+            None
+        }
+    }
+}
+
+thread_local! {
+    static PROBE_PANICS: RefCell<Vec<String>> = const { RefCell::new(Vec::new()) };
+}
+
+/// Panics of the code under test raised inside `guarded` calls on this thread.
+pub fn take_probe_panics() -> Vec<String> {
+    PROBE_PANICS.with(|p| std::mem::take(&mut *p.borrow_mut()))
+}
+
 impl StoreStack {
     pub fn record_len(&self, key: &[u8]) -> Option<u64> {
         use memcrs::cache::cache::impl_details::CacheImplDetails;
         let k = bytes::Bytes::copy_from_slice(key);
-        self.inner.get_by_key(&k).ok().map(|r| r.len() as u64)
+        guarded(|| self.inner.get_by_key(&k).ok().map(|r| r.len() as u64)).flatten()
     }
 
     /// Σ Record::len() over the inner store, through the public read-only API.
     pub fn probe(&self) -> StoreProbe {
+        guarded(|| self.probe_inner()).unwrap_or_default()
+    }
+
+    fn probe_inner(&self) -> StoreProbe {
         // iterate through the public Cache API: a predicate that never removes
         let acc = Arc::new((AtomicU64::new(0), AtomicU64::new(0)));
         let acc2 = acc.clone();
